@@ -65,7 +65,7 @@ def handleOptspec : List Sexp → Sexp
     | some n, some env, some bd =>
       let fl := optFlagsOfSexp flags
       let fns := constFnsOfSexp fns
-      let c : Spec.SCfg := { world := optWorld, env := env, budget := bd, rangeSizeSigned := true, sliceToFirst := true }
+      let c : Spec.SCfg := { world := optWorld, env := env, budget := bd, rangeSizeSigned := false, sliceToFirst := true }
       let g : Opt.Guard := fun p nd => match p, nd with
         | .fold, .array .. => foldArrays.asBool.getD true
         | _, _ => true
